@@ -56,6 +56,11 @@ func lenReplay(path string) {
 			if lenOne(v, &sum) {
 				skipped++
 			}
+			if v.Lenmsg < 2048 { // and once more with empty lists spelled as nil slices
+				L.NilLists = true
+				defer func() { L.NilLists = false }()
+				lenOne(v, &sum)
+			}
 		}); p != "" {
 			sum.Mis("len/panic:"+L.MsgKey(&v.Msg), "panic: "+p, smallL(v))
 		}
@@ -179,6 +184,24 @@ func lenOne(v *lvec, sum *hx.Summary) (c01 bool) {
 				sum.Mis("len/packbuffer-octets:"+key+":"+tag, fmt.Sprintf("PackBuffer(buf of %d) differs from Pack()", p.N), smallL(v))
 			case p.N > need && !p.Inplace:
 				sum.Mis("len/packbuffer-not-in-place:"+key+":"+tag, fmt.Sprintf("PackBuffer(buf of %d) allocated although the uncompressed length is %d (predicted %d)", p.N, u, pred), smallL(v))
+			}
+		}
+	}
+	// the message as a decoder holds it (e.g. nil lists, the typed zero value of an RDATA-less record): Len() of it
+	// never under-estimates what Pack() makes of it either
+	if !v.NoBytes && len(v.Bytes) > 0 {
+		for _, compress := range []bool{false, true} {
+			u := new(dns.Msg)
+			if u.Unpack(v.Bytes.Bytes()) != nil {
+				break // C01's finding
+			}
+			u.Compress = compress
+			l := u.Len()
+			b, err := u.Pack()
+			if err == dns.ErrBuf {
+				sum.Mis("len/pack-errbuf-unpacked:"+key, fmt.Sprintf("Unpack(spec octets).Pack() (%s): %v (Len() = %d)", cTag(compress), err, l), smallL(v))
+			} else if err == nil && l < len(b) {
+				sum.Mis("len/underestimate-unpacked:"+key+":"+cTag(compress), fmt.Sprintf("after Unpack(spec octets): Len() = %d < len(Pack()) = %d", l, len(b)), smallL(v))
 			}
 		}
 	}
